@@ -54,6 +54,31 @@ func allBoxes(top []*gen.Box) []*gen.Box {
 	return out
 }
 
+// lastKidChains returns, for every non-top-level box P that has children and no slack after
+// them, the pair (P, last child of P) and, where that child has children itself, the triple.
+// Overstating every member of such a chain by the same amount makes the innermost box extend
+// beyond the real end of all its ancestors, up to the top-level box.
+func lastKidChains(top []*gen.Box) [][]*gen.Box {
+	var out [][]*gen.Box
+	var walk func(b *gen.Box, depth int)
+	walk = func(b *gen.Box, depth int) {
+		if depth > 0 && len(b.Kids) > 0 && len(b.Post) == 0 {
+			k := b.Kids[len(b.Kids)-1]
+			out = append(out, []*gen.Box{b, k})
+			if len(k.Kids) > 0 && len(k.Post) == 0 {
+				out = append(out, []*gen.Box{b, k, k.Kids[len(k.Kids)-1]})
+			}
+		}
+		for _, k := range b.Kids {
+			walk(k, depth+1)
+		}
+	}
+	for _, b := range top {
+		walk(b, 0)
+	}
+	return out
+}
+
 func (e *C11) Run(c *core.Ctx, idx int) {
 	r := c.Rng(idx)
 	heif := idx%6 == 5
@@ -115,7 +140,23 @@ func (e *C11) Run(c *core.Ctx, idx int) {
 				malformed = false
 			} else {
 				b := kids[r.Intn(len(kids))]
-				switch r.Intn(5) {
+				kind := r.Intn(7)
+				chains := lastKidChains(top)
+				if kind >= 5 && len(chains) == 0 {
+					kind = r.Intn(5)
+				}
+				switch kind {
+				case 5, 6: // a whole chain of last children overstates by the same amount
+					ch := chains[r.Intn(len(chains))]
+					d := int64(r.Range(1, 64))
+					if kind == 6 {
+						d = int64(r.Range(65, 20000))
+					}
+					for _, x := range ch {
+						x.SizeDelta = d
+					}
+					// and make the innermost one a box the reader hands to a callback where possible
+					c.Rec.Count("chain_overstatements", 1)
 				case 0:
 					b.SizeDelta = int64(r.Range(1, 64))
 				case 1:
@@ -185,9 +226,16 @@ func (e *C11) Run(c *core.Ctx, idx int) {
 	}
 	full := cbMode == 0 || cbMode == 3
 	cmtSeen := map[ifds.IfdType]int{}
+	curEnd := len(data) // end of the top-level box being processed
+	escaped := func(what string) {
+		if p := pos(); p > curEnd {
+			viol("bmff:callback-escape", fmt.Sprintf("the %s callback could read up to stream position %d, beyond the end %d of the enclosing top-level box", what, p, curEnd))
+		}
+	}
 	rd.ExifReader = func(src io.Reader, h meta.ExifHeader) error {
 		callbacks++
 		got, clean := consume(src)
+		escaped("Exif")
 		if heif || malformed {
 			return nil
 		}
@@ -220,6 +268,7 @@ func (e *C11) Run(c *core.Ctx, idx int) {
 	rd.XMPReader = func(src io.Reader) error {
 		callbacks++
 		got, clean := consume(src)
+		escaped("XMP")
 		if heif || malformed {
 			return nil
 		}
@@ -237,6 +286,7 @@ func (e *C11) Run(c *core.Ctx, idx int) {
 	rd.PreviewImageReader = func(src io.Reader, h meta.PreviewHeader) error {
 		callbacks++
 		got, clean := consume(src)
+		escaped("preview")
 		if heif || malformed {
 			return nil
 		}
@@ -269,6 +319,7 @@ func (e *C11) Run(c *core.Ctx, idx int) {
 		}
 		for i := 1; i < len(top); i++ {
 			end = top[i].Off + top[i].Size
+			curEnd = end
 			err = rd.ReadMetadata()
 			c.Rec.Eval(1)
 			p := pos()
